@@ -92,7 +92,7 @@ def rule_sys(repo, tier):
             for ta, A in _alternatives(A0):
                 for tb, b in _alternatives(b0):
                     # keep only consistent alternatives (same condition taken on both sides)
-                    if ta != tb:
+                    if ta != tb and ta and tb:
                         continue
                     key = (dump(A), dump(b))
                     if key in seen:
@@ -130,6 +130,10 @@ def rule_sys(repo, tier):
                                 problems.append('b is not built with the same J^T W factor as A')
                         else:
                             problems.append('A is not a product J^T W J: %s' % src(A)[:60])
+                        # the weight enters both sides (J^T W J, J^T W R) or neither; a conditional on the weight decides both sides alike
+                        cond_w = 'weight' in (ta or tb or '')
+                        if contains(A, isW) != contains(b, isW) and (cond_w or not (ta or tb)):
+                            problems.append('the weight multiplies only one side of (J^T W J) delta = -(J^T W) R')
                     else:
                         if contains(b, isJ):
                             problems.append('the Jacobian appears in the right-hand side of the Gauss-Newton system')
@@ -138,11 +142,11 @@ def rule_sys(repo, tier):
                         wb = contains(b, isW)
                         if wA != wb:
                             problems.append('the weight multiplies only one side of W J delta = -W R')
-                    res.inst({'function': f.fq, 'case': (ta or 'unconditional'), 'A': src(A)[:70], 'b': src(b)[:70], 'ok': not problems},
+                    res.inst({'function': f.fq, 'case': (ta or tb or 'unconditional'), 'A': src(A)[:70], 'b': src(b)[:70], 'ok': not problems},
                              (f.fq, key))
                     for p in problems:
-                        res.add(Finding('C07.SYS', f, p + ' [case %s: A=%s, b=%s]' % (ta or '-', src(A)[:50], src(b)[:50]), node=call,
-                                        construct=p[:90] + ' | ' + (ta or '-')))
+                        res.add(Finding('C07.SYS', f, p + ' [case %s: A=%s, b=%s]' % (ta or tb or '-', src(A)[:50], src(b)[:50]), node=call,
+                                        construct=p[:90] + ' | ' + (ta or tb or '-')))
     return res
 
 
